@@ -254,6 +254,28 @@ func c06FixedList() []c06Fixed {
 		lazy("limit_operand_depth", hint, func() string { return "print " + rep("1+(", n) + "1" + rep(")", n) })
 		lazy("limit_operand_depth", "", func() string { return "def b { x = " + rep("1-(", n) + "1" + rep(")", n) + " }" })
 	}
+	// (4a') the stack filled up to the limit by each kind of pushing instruction:
+	// constant, the zero/one/true/false/nil shortcuts, a variable read, a field read
+	for _, k := range []string{"2", "0", "1", "true", "false", "nil", "v", "f", "2.5", `"s"`} {
+		for n := 1016; n <= 1030; n++ {
+			k, n := k, n
+			lazy("limit_operand_depth_by_push_kind", "", func() string {
+				return "def b { f = 5\nvar v = 7\ny = " + rep(k+"==(", n) + k + rep(")", n) + " }"
+			})
+		}
+		for _, nv := range []int{1021, 1022, 1023, 1024} {
+			k, nv := k, nv
+			lazy("limit_locals_then_push_kind", "", func() string {
+				var b strings.Builder
+				b.WriteString("def b { f = 5\nvar v = 7\n")
+				for j := 1; j < nv; j++ {
+					fmt.Fprintf(&b, "var w%d\n", j)
+				}
+				b.WriteString("eval " + k + "\nz = " + k + " == " + k + "\n}")
+				return b.String()
+			})
+		}
+	}
 	// (4b,c) live variables, with and without temporaries on top
 	for _, n := range []int{1000, 1020, 1021, 1022, 1023, 1024, 1025, 1026, 1027, 1030, 2048} {
 		n := n
